@@ -6,6 +6,7 @@ from mirsym.engine import some, none, OPTION, RESULT
 from mirsym.models import str_push, str_concat, is_ws
 
 BS, DQ, SP, HASH, EQ, COLON, BANG, LF, CR, TAB = 92, 34, 32, 35, 61, 58, 33, 10, 13, 9
+DOLLAR, LBRACE, RBRACE, PERCENT = 36, 123, 125, 37
 
 SCRIPT_ERRORS = ['ErrorReadingFile', 'Initialization', 'Runtime', 'PreProcessNoCommandFound', 'ControlWithoutValidValue',
                  'InvalidControlLocation', 'MissingEndQuotes', 'MissingOutputVariableName', 'InvalidEqualsLocation',
